@@ -21,7 +21,7 @@ var c16BuiltinDateParsers = []string{"dateTimeOptional", "unix_sec", "unix_milli
 var c16PropNames = []string{"a", "b", "c", "obj", "tags"}
 
 type c16Stats struct {
-	custom, nonDefaultOpt, subDoc, nested, emptyLists int
+	custom, nonDefaultOpt, subDoc, nested, emptyLists, rejected int
 }
 
 func genCustomAnalysis(t *rapid.T, m *mapping.IndexMappingImpl, st *c16Stats) (analyzers, dateParsers []string) {
@@ -112,6 +112,65 @@ func genCustomAnalysis(t *rapid.T, m *mapping.IndexMappingImpl, st *c16Stats) (a
 		must(m.AddCustomDateTimeParser(name, map[string]interface{}{"type": "flexiblego", "layouts": []interface{}{"2006-01-02", "02/01/2006 15:04"}}), name)
 		dateParsers = append(dateParsers, name)
 		st.custom++
+	}
+	// calls that the mapping rejects (a name defined a second time with another configuration,
+	// a configuration that cannot be built): the caller carries on with the mapping, which must
+	// still describe - in memory and in its JSON form - exactly what was accepted
+	for i, n := 0, rapid.IntRange(0, 2).Draw(t, "nrejected"); i < n; i++ {
+		var err error
+		what := rapid.SampledFrom([]string{"analyzer-again", "analyzer-broken", "tokenfilter-again", "tokenfilter-broken", "charfilter-again", "tokenizer-again", "tokenmap-again", "dateparser-again"}).Draw(t, "rejected")
+		pick := func(names []string) string {
+			if len(names) == 0 {
+				return ""
+			}
+			return rapid.SampledFrom(names).Draw(t, "rejected.name")
+		}
+		switch what {
+		case "analyzer-again":
+			if name := pick(analyzers[len(c16BuiltinAnalyzers):]); name != "" {
+				err = m.AddCustomAnalyzer(name, map[string]interface{}{"type": "custom", "tokenizer": "single", "token_filters": []interface{}{"to_lower"}})
+			} else {
+				continue
+			}
+		case "analyzer-broken":
+			err = m.AddCustomAnalyzer(fmt.Sprintf("bad%d", i), map[string]interface{}{"type": "custom", "tokenizer": "no-such-tokenizer"})
+		case "tokenfilter-again":
+			if name := pick(tokenFilters); name != "" {
+				err = m.AddCustomTokenFilter(name, map[string]interface{}{"type": "truncate_token", "length": 1.0})
+			} else {
+				continue
+			}
+		case "tokenfilter-broken":
+			err = m.AddCustomTokenFilter(fmt.Sprintf("badtf%d", i), map[string]interface{}{"type": "stop_tokens", "stop_token_map": "no-such-map"})
+		case "charfilter-again":
+			if name := pick(charFilters); name != "" {
+				err = m.AddCustomCharFilter(name, map[string]interface{}{"type": "regexp", "regexp": "q", "replace": "Q"})
+			} else {
+				continue
+			}
+		case "tokenizer-again":
+			if name := pick(tokenizers); name != "" {
+				err = m.AddCustomTokenizer(name, map[string]interface{}{"type": "regexp", "regexp": "."})
+			} else {
+				continue
+			}
+		case "tokenmap-again":
+			if name := pick(tokenMaps); name != "" {
+				err = m.AddCustomTokenMap(name, map[string]interface{}{"type": "custom", "tokens": []interface{}{"zzz"}})
+			} else {
+				continue
+			}
+		default:
+			if name := pick(dateParsers[len(c16BuiltinDateParsers):]); name != "" {
+				err = m.AddCustomDateTimeParser(name, map[string]interface{}{"type": "flexiblego", "layouts": []interface{}{"2006"}})
+			} else {
+				continue
+			}
+		}
+		if err == nil {
+			t.Fatalf("harness: the mapping accepted %s", what)
+		}
+		st.rejected++
 	}
 	return
 }
@@ -341,6 +400,9 @@ func TestC16MappingJSON(t *testing.T) {
 			}
 			if st.emptyLists > 0 {
 				cl = append(cl, "explicitly-empty-fields-or-properties")
+			}
+			if st.rejected > 0 {
+				cl = append(cl, "rejected-custom-analysis-definitions")
 			}
 			if errA != nil {
 				cl = append(cl, "map-document-error")
